@@ -386,10 +386,10 @@ def search_state(run):
             for z in zs:
                 try:
                     out.append(("layer", li.layers.index(li.layer_at_depth(z)), float(li.index(z)), bool(li.contains((0, 0, z)))))
-                except (ValueError, IndexError) as e:
+                except Exception as e:      # noqa: BLE001 - the answers before and after are compared, whatever they are
                     try:
                         out.append((type(e).__name__, None, float(li.index(z)), bool(li.contains((0, 0, z)))))
-                    except (ValueError, IndexError) as e2:
+                    except Exception as e2:      # noqa: BLE001
                         out.append((type(e).__name__, None, type(e2).__name__, None))
             return out
         before = probe()
